@@ -213,6 +213,14 @@ def run(ck, m):
             deltas.append((c, _print_delta(c2, env, fl, al)))
     except (Unk, NotPoly) as e:
         raise AnalysisError(f"C06.R2: a write in _animate_ is not in the cursor-row transfer table: {e}") from None
+    # every frame of the loop is drawn: after `_clear_frame_()` has (possibly) erased the previous frame, skipping the write of a frame - e.g. because it
+    # equals the one drawn before - leaves the region blank; the writes inside the frame loop have no condition of their own
+    from tiv.astutil import conds as _conds6
+    for c, _d in deltas:
+        if any(a is loop for a in _anc(c)):
+            own6 = sorted(_conds6(c) - _conds6(loop))
+            ck.ob("R2", enclosing_stmt(c), not own6, f"`{short(c, 50)}` in the frame loop runs only under {own6}: a frame that is not written is not on the screen (the previous one may just have been cleared), "
+                  "and the cursor bookkeeping of the iteration no longer adds up", stmt=f"_animate_: frame-loop write unconditional: {short(c, 40)}")
     first = [d for c, d in deltas if c.lineno < sp.lineno]
     inloop = [d for c, d in deltas if any(a is loop for a in _anc(c))]
     final = [(c, d) for c, d in deltas if any(part == "finalbody" for _, part in try_context(c))]
